@@ -53,6 +53,13 @@ def gen_string_error(cs):
     bad = cs.pick(bad_b if isb else (bad_f + bad_s if isf else bad_s))
     tail = cs.pick(['', 'z', 'é' if not isb else 'y', '{y}' if isf else 'y'])
     lit = pfx + q + ''.join(good) + bad + tail + q
+    if cs.bool(80):
+        # implicit concatenation: well-formed literals (with non-ASCII text) in front of the one with the error
+        front = []
+        for _ in range(1 + cs.choice(2)):
+            fq = cs.pick(["'", '"'])
+            front.append(('b' if isb else cs.pick(['', 'u', 'r', 'f'])) + fq + (cs.pick(['a', 'xy', '']) if isb else cs.pick(['éé', '日本', 'a', '\U0001f600', 'ß ', ''])) + fq)
+        lit = cs.pick([' ', '  ', '\\\n', ' \\\r\n  ']).join(front + [lit]) if not cs.bool(40) else '(' + cs.pick([' ', '\n     ', '\r\n  ']).join(front + [lit]) + ')'
     return cs.pick(['%s', 'x = %s', 'print(%s)', 'é = %s\n', '# é\n%s', 'f(%s, 1)', 'x = [%s,\n 2]']) % lit + cs.pick(['', '\n', '\r\n'])
 
 
